@@ -7,7 +7,7 @@ import z3
 
 from . import sym
 from .sym import SV, INT, BOOL, REAL, STR, BYTES, Opt, Tup, Ref, Unsupported, lift
-from .interp import (Raised, Exc, Obj, PyRef, NTup, Closure, Model, Bound, ExcClass,
+from .interp import (Raised, Exc, Obj, PyRef, NTup, Closure, Model, Bound, ExcClass, Unknown,
                      IterSpec, ConcreteIter, StarArg, make_ntup)
 
 INPLACE_DONE = object()
@@ -231,6 +231,10 @@ def as_pybool(z):
 
 
 def compare(interp, st, op, a, b):
+    if isinstance(a, Unknown) or isinstance(b, Unknown):
+        (a if isinstance(a, Unknown) else b).note(interp, st)
+        yield st, SV(BOOL, z3.Bool(sym.fresh_name('unknown_cmp')))
+        return
     if isinstance(op, (ast.Is, ast.IsNot)):
         neg = isinstance(op, ast.IsNot)
         if a is None or b is None:
@@ -277,6 +281,10 @@ def compare(interp, st, op, a, b):
 
 def contains(interp, st, container, item):
     """-> yields (st, z3 Bool | Raised)"""
+    if isinstance(container, Unknown):
+        container.note(interp, st)
+        yield st, z3.Bool(sym.fresh_name('unknown_contains'))
+        return
     if isinstance(container, PyRef):
         c = interp.deref(st, container)
         if isinstance(c, SV):
@@ -487,6 +495,9 @@ class MethodModel:
 
 def setattr_(interp, st, o, name, v):
     o = resolve(st, o)
+    if isinstance(o, Obj) and getattr(o, '_lenient', False) and name not in o._attrs and name not in getattr(o, '_settable', ()):
+        st.emit('unknown_state_set', name=f'{o._name}.{name}')     # a write to state nobody under contract reads
+        return
     if isinstance(o, SV) and isinstance(o.ty, Opt):
         o = unwrap_opt(interp, st, o, f'setattr_{name}_receiver')
     if isinstance(o, SV) and isinstance(o.ty, Ref) and name in o.ty.cls.fields and not o.ty.cls.keyed:
